@@ -1,5 +1,9 @@
 /// Transform a data matrix by replaceing all categorical variables with their one-hot vector equivalents
 pub mod categorical;
+#[cfg(not(smartcore_verif))]
 mod data_traits;
+#[cfg(smartcore_verif)]
+#[allow(missing_docs)]
+pub mod data_traits;
 /// Encode a series (column, array) of categorical variables as one-hot vectors
 pub mod series_encoder;
